@@ -15,6 +15,9 @@ pub const RECONF: u64 = 1 << 62;
 /// seeds with bit 61 set: the generator first produced a pickle under another protocol and was then
 /// switched through the pub field `state.version`
 pub const RESWITCH: u64 = 1 << 61;
+/// seeds with bit 60 set: the generator first produced one large pickle (6 000-7 000 opcodes, several
+/// hundred memo entries) and was then set back to the default range
+pub const AFTERBIG: u64 = 1 << 60;
 
 fn is_ext(name: &str) -> bool {
     matches!(name, "EXT1" | "EXT2" | "EXT4")
@@ -95,11 +98,28 @@ pub fn scenario_reswitched(p: u8, seed: u64) -> Scenario {
     sc
 }
 
+/// one large pickle first (range set through the pub fields), then the default range again
+pub fn scenario_after_big(p: u8, seed: u64) -> Scenario {
+    let c = Config::default_for(p);
+    let mut sc = Scenario::solo(c, Entropy::Rand(seed ^ 0x7777));
+    sc.history.insert(0, crate::desc::HOp::SetRange(6_000, 7_000));
+    sc.history.push(crate::desc::HOp::SetRange(60, 300));
+    // the large call is amortised over 64 default-sized calls on the same generator
+    for j in 0..64u64 {
+        sc.history.push(crate::desc::HOp::Gen(Entropy::Rand(crate::desc::mix64(seed ^ (j << 40)))));
+    }
+    sc
+}
+
 /// opcode names (deduplicated) of one default-settings run
-fn names_of(p: u8, flags: bool, seed: u64) -> Option<(Vec<&'static str>, bool)> {
-    // seeds with bit 62 set mark the "reconfigured generator" batch, bit 61 the "switched protocol" one
+fn names_of(p: u8, flags: bool, seed: u64) -> Vec<(Vec<&'static str>, bool)> {
+    // seeds with bit 62 set mark the "reconfigured generator" batch, bit 61 the "switched protocol"
+    // one, bit 60 the "after one large pickle" one (every call after the large one is counted)
     let reconf = seed & RECONF != 0;
-    let sc = if seed & RESWITCH != 0 {
+    let after_big = seed & AFTERBIG != 0;
+    let sc = if after_big {
+        scenario_after_big(p, seed & !AFTERBIG)
+    } else if seed & RESWITCH != 0 {
         scenario_reswitched(p, seed & !RESWITCH)
     } else if reconf {
         scenario_reconfigured(p, seed & !RECONF)
@@ -107,24 +127,29 @@ fn names_of(p: u8, flags: bool, seed: u64) -> Option<(Vec<&'static str>, bool)> 
         scenario_for(p, flags, seed)
     };
     let recs = exec::run_scenario(&sc, Trace::Off, false);
-    let out = recs.last()?.outcome.bytes()?;
-    let (ops, err) = lexer::lex(out);
-    if err.is_some() {
-        return None;
-    }
-    let mut seen = [false; 256];
-    let mut names = vec![];
-    let mut framed = false;
-    for o in &ops {
-        if !seen[o.code() as usize] {
-            seen[o.code() as usize] = true;
-            names.push(o.name());
+    let counted: Vec<&exec::CallRecord> = if after_big { recs.iter().skip(1).collect() } else { recs.last().into_iter().collect() };
+    let mut out = vec![];
+    for rec in counted {
+        let Some(o) = rec.outcome.bytes() else { continue };
+        let (ops, err) = lexer::lex(o);
+        if err.is_some() {
+            continue;
         }
-        if o.name() == "FRAME" {
-            framed = true;
+        let mut seen = [false; 256];
+        let mut names = vec![];
+        let mut framed = false;
+        for o in &ops {
+            if !seen[o.code() as usize] {
+                seen[o.code() as usize] = true;
+                names.push(o.name());
+            }
+            if o.name() == "FRAME" {
+                framed = true;
+            }
         }
+        out.push((names, framed));
     }
-    Some((names, framed))
+    out
 }
 
 pub fn run_batch(p: u8, flags: bool, seed_base: u64, max_seeds: u64, stats: &mut Stats) -> Batch {
@@ -140,13 +165,14 @@ pub fn run_batch(p: u8, flags: bool, seed_base: u64, max_seeds: u64, stats: &mut
         seeds_tried: 0,
     };
     let nt = crate::engine::n_threads() as u64;
-    let chunk: u64 = 512 * nt;
+    // a seed of the after-big batch stands for 65 calls
+    let chunk: u64 = if seed_base & AFTERBIG != 0 { 8 * nt } else { 512 * nt };
     let mut start = 0u64;
     while start < max_seeds && !b.complete() {
         let end = (start + chunk).min(max_seeds);
         // evaluate [start, end) in parallel; merge in seed order so the result does not depend on
         // the number of threads
-        let results: Vec<Vec<(u64, Option<(Vec<&'static str>, bool)>)>> = std::thread::scope(|s| {
+        let results: Vec<Vec<(u64, Vec<(Vec<&'static str>, bool)>)>> = std::thread::scope(|s| {
             let mut hs = vec![];
             for t in 0..nt {
                 hs.push(s.spawn(move || {
@@ -161,28 +187,30 @@ pub fn run_batch(p: u8, flags: bool, seed_base: u64, max_seeds: u64, stats: &mut
             }
             hs.into_iter().map(|h| h.join().unwrap()).collect()
         });
-        let mut flat: Vec<(u64, Option<(Vec<&'static str>, bool)>)> = results.into_iter().flatten().collect();
+        let mut flat: Vec<(u64, Vec<(Vec<&'static str>, bool)>)> = results.into_iter().flatten().collect();
         flat.sort_by_key(|x| x.0);
         for (i, r) in flat {
             b.seeds_tried += 1;
             crate::engine::tick();
             stats.evaluations += 1;
             let seed = seed_base.wrapping_add(i);
-            let Some((names, framed)) = r else {
+            if r.is_empty() {
                 stats.bump("reach.run_without_decodable_output");
                 continue;
-            };
-            for n in names {
-                *b.counts.entry(n).or_insert(0) += 1;
-                b.first_seed.entry(n).or_insert(seed);
             }
-            if p >= 4 {
-                if framed {
-                    b.framed += 1;
-                    b.first_framed.get_or_insert(seed);
-                } else {
-                    b.unframed += 1;
-                    b.first_unframed.get_or_insert(seed);
+            for (names, framed) in r {
+                for n in names {
+                    *b.counts.entry(n).or_insert(0) += 1;
+                    b.first_seed.entry(n).or_insert(seed);
+                }
+                if p >= 4 {
+                    if framed {
+                        b.framed += 1;
+                        b.first_framed.get_or_insert(seed);
+                    } else {
+                        b.unframed += 1;
+                        b.first_unframed.get_or_insert(seed);
+                    }
                 }
             }
         }
@@ -316,6 +344,24 @@ pub fn sweep(tier: Tier, verif_seed: u64) -> ReachOutcome {
             ));
         }
     }
+    // fifth batch: generators that have served one large pickle before (lifetime maxima, caches and
+    // thresholds that survive reset() must not remove anything from the vocabulary)
+    for p in 0..6u8 {
+        // one seed of this batch stands for 65 calls: the same call budget as the other batches
+        let b = run_batch(p, false, AFTERBIG, (max_seeds / 64).max(64), &mut stats);
+        detail.push(json!({"protocol": p, "ext_and_buffer_enabled": false, "generator": "served one 6000-7000 opcode pickle first (several hundred memo entries)", "seeds_tried": b.seeds_tried, "complete": b.complete()}));
+        for m in b.missing() {
+            let class = if m.starts_with('<') {
+                format!("frame-variant-unreached({},{})", p, if m.contains("unframed") { "unframed" } else { "framed" })
+            } else {
+                format!("unreached({},{})", p, m)
+            };
+            violations.push((
+                json!({"protocol": p, "flags": false, "after_big": true, "target": m, "seeds": b.seeds_tried}),
+                Violation::new("C12", class, format!("{} never occurs in protocol-{} output for {} seeds on a generator that served one large pickle first", m, p, b.seeds_tried)),
+            ));
+        }
+    }
     ReachOutcome { stats, violations, pairs_seen: pairs.len(), detail: json!(detail) }
 }
 
@@ -326,7 +372,9 @@ pub fn replay(body: &Value) -> Vec<Violation> {
     let target = body["target"].as_str().unwrap_or("").to_string();
     let seeds = body["seeds"].as_u64().unwrap_or(0);
     let mut st = Stats::default();
-    let base = if body["reswitched"].as_bool() == Some(true) {
+    let base = if body["after_big"].as_bool() == Some(true) {
+        AFTERBIG
+    } else if body["reswitched"].as_bool() == Some(true) {
         RESWITCH
     } else if body["reconfigured"].as_bool() == Some(true) {
         RECONF
